@@ -5,7 +5,7 @@
      X^T X = 2,  C^-1/2 = 1/sqrt 2,  C^1/2 = sqrt 2,  C~ = 2              (feature space) *)
 From mathcomp Require Import all_ssreflect all_algebra.
 From mathcomp Require Import ring.
-From Verif Require Import MExp MExpMx PCovR PCovRP PCovRProg.
+From Verif Require Import MExp MExpMx PCovR PCovRP PCovRProg KyFan C14Thm C04Thm.
 Set Implicit Arguments.
 Unset Strict Implicit.
 Unset Printing Implicit Defensive.
@@ -185,4 +185,62 @@ Section Example.
     split; [exact: ex_centred | exact: ex_sample | exact: ex_feature | ].
     by split; [exact: ex_retained | exact: ex_mixing | exact: ex_X_neq0].
   Qed.
+
+  Lemma ex_c03 : exists (env : env_mx F) (Uc : 'M[F]_(2, 1)) (Sc : 'cV[F]_1),
+    [/\ [/\ centred 2 1 env, fit_oracle 2 1 1 1 env true, fit_oracle 2 1 1 1 env false
+          & [/\ forall i, e_tol env < e_S 1 env i 0, e_a env = mix & e_X 2 1 env != 0]],
+        eval_mx env (kern_prog 2 1 1) *m Uc = Uc *m diag_mx Sc^T,
+        e_Vs 2 1 env *m (e_Vs 2 1 env)^T + Uc *m Uc^T = 1%:M
+      & forall i j, Sc i 0 != e_S 1 env j 0].
+  Proof.
+    exists ex_env, ex_Uc, ex_Sc.
+    by have [h1 h2 h3] := ex_rest; split=> //; exact: ex_nonvacuous.
+  Qed.
+
+  (* C04: the optimality hypotheses (full decreasing eigen-decomposition whose top k the
+     oracle returned) hold for the example, together with an orthonormal competitor *)
+  Lemma ex_full_fit :
+    full_fit 1 1 (isT : (1 <= 2)%N) ex_env ex_U ex_L.
+  Proof.
+    have [h1 h2 h3 h4] := ex_full; split=> //.
+    by have [_ hs _ _] := ex_nonvacuous.
+  Qed.
 End Example.
+
+Section Example2.
+  Variable F : rcfType.
+
+  (* two fits of the same data with mixings 1/3 < 2/3, the limits 1 and 0 *)
+  Lemma ex_c04 :
+    exists (ea eb : env_mx F) (U : 'M[F]_2) (La Lb : 'cV[F]_2) (Q : 'M[F]_(2, 1)),
+      [/\ [/\ e_X 2 1 ea = e_X 2 1 eb, e_Yh 2 1 ea = e_Yh 2 1 eb & centred 2 1 ea],
+          [/\ 0 <= e_a ea, e_a ea < e_a eb & e_a eb <= 1],
+          full_fit 1 1 (isT : (1 <= 2)%N) ea U La, full_fit 1 1 (isT : (1 <= 2)%N) eb U Lb
+        & Q^T *m Q = 1%:M].
+  Proof.
+    exists (ex_env (3%:R^-1)), (ex_env (2%:R / 3%:R)), (ex_U F), (ex_L F), (ex_L F), (ex_Q F).
+    split; [split | split | exact: ex_full_fit | exact: ex_full_fit | exact: ex_Q_orth].
+    - by apply/matrixP=> i j; rewrite /e_X !mxE.
+    - by apply/matrixP=> i j; rewrite /e_Yh !mxE.
+    - exact: ex_centred.
+    - by rewrite ex_mixing invr_ge0 ler0n.
+    - rewrite !ex_mixing -[X in X < _]mul1r ltr_pmul2r ?invr_gt0 ?ltr0n //.
+      by rewrite ltr1n.
+    - by rewrite ex_mixing ler_pdivr_mulr ?ltr0n // mul1r ler_nat.
+  Qed.
+
+  Lemma ex_c04_limits :
+    exists (e1 e0 : env_mx F),
+      [/\ e_a e1 = 1, fit_oracle 2 1 1 1 e1 true, fit_oracle 2 1 1 1 e1 false
+        & [/\ e_a e0 = 0, fit_oracle 2 1 1 1 e0 true, centred 2 1 e0,
+              (e_X 2 1 e0)^T *m (e_Y 2 1 e0 - e_Yh 2 1 e0) = 0
+            & eval_mx e0 (kern_prog 2 1 1)
+              = e_Vs 2 1 e0 *m dmap (fun x => g_mk (e_tol e0) x * x) (e_S 1 e0) *m (e_Vs 2 1 e0)^T]].
+  Proof.
+    exists (ex_env 1), (ex_env 0).
+    have [c1 s1 f1 _] := ex_nonvacuous (1 : F).
+    have [c0 s0 f0 _] := ex_nonvacuous (0 : F).
+    split=> //; first exact: ex_mixing.
+    split=> //; [exact: ex_mixing | exact: ex_ls | exact: ex_capture].
+  Qed.
+End Example2.
